@@ -6,7 +6,7 @@ Same line protocol as the Lean driver m_c19 (lean/Drivers/C19.lean): one request
   reset                         forget all containers (the interpreter and the runtime's module state stay!)
   use i                         select container slot i (several containers live side by side in one process)
   new KIND lo hi base U O N     create a container in the current slot; KIND in ARRAY LIST BAG SET; lo int; hi int or
-                                `?` (indeterminate upper bound); base = 0|1|2|3|4|5 (INTEGER STRING REAL(whole numbers) BOOLEAN(payload 0/1) LOGICAL(payload 0 = Unknown) NUMBER(base type only)) or kind letters down to
+                                `?` (indeterminate upper bound); base = 0|1|2|3|4|5 (INTEGER STRING REAL(whole numbers) BOOLEAN(payload 0/1) LOGICAL(payload 0 = Unknown) NUMBER(base type only) 6|7 two ENUMERATIONs E1 E2 (payload = member)) or s<mask> = SELECT over the tags whose bits are set (base type only) or kind letters down to
                                 a simple type: A0, LS2 (LIST OF SET OF REAL), ALS2 …; U,O = UNIQUE/OPTIONAL flags 0|1;
                                 N = 1: the base type is passed *by name* with scope= (exercises Type.get_type)
   set i t v | get i | add t v   item assignment, item read, BAG/SET add; value = type t (as for base), payload v;
@@ -36,8 +36,11 @@ from stepcode.BaseType import Aggregate as BaseTypeAggregate                 # n
 
 from stepcode import Builtin                                                 # noqa: E402
 BUILTIN = ("SIZEOF", "HIINDEX", "LOINDEX", "HIBOUND", "LOBOUND", "VALUE_UNIQUE")
-BASES = [INTEGER, STRING, REAL, BOOLEAN, LOGICAL, NUMBER]
-BASE_NAMES = ["INTEGER", "STRING", "REAL", "BOOLEAN", "LOGICAL", "NUMBER"]
+from stepcode.ConstructedDataTypes import ENUMERATION, SELECT                # noqa: E402
+E1 = ENUMERATION("E1", " ".join("m%d" % i for i in range(16)))
+E2 = ENUMERATION("E2", " ".join("m%d" % i for i in range(16)))
+BASES = [INTEGER, STRING, REAL, BOOLEAN, LOGICAL, NUMBER, E1, E2]
+BASE_NAMES = ["INTEGER", "STRING", "REAL", "BOOLEAN", "LOGICAL", "NUMBER", "E1", "E2"]
 SCOPE = sys.modules[__name__]
 
 
@@ -50,8 +53,13 @@ def parse_ty(t):
     """-> nested tuple: ('s', tag) | (kind letter, inner)"""
     if len(t) > 6:
         raise ValueError("type token")
+    if t[:1] == "s":                               # SELECT over the simple types whose bits are set in the mask
+        m = int(t[1:])
+        if not 0 < m < 256:
+            raise ValueError("select mask")
+        return ("sel", m)
     if len(t) == 1:
-        if t not in "012345":
+        if t not in "01234567":
             raise ValueError("type tag")
         return ("s", int(t))
     if t[0] in INNER:
@@ -60,6 +68,8 @@ def parse_ty(t):
 
 
 def build(ty):
+    if ty[0] == "sel":
+        return SELECT(*[BASE_NAMES[i] for i in range(8) if ty[1] >> i & 1], scope=SCOPE)
     return BASES[ty[1]] if ty[0] == "s" else INNER[ty[0]](build(ty[1]))
 
 
@@ -70,6 +80,8 @@ def mk_type(t):
 def mk_val(t, v, declared=None):
     """declared = (token, object) of the current container's element type"""
     ty = parse_ty(t)
+    if ty[0] == "sel":
+        raise ValueError("a SELECT has no values of its own")
     if ty[0] != "s":
         if (t, v) not in OBJECTS:
             inner_tok = t[1:]
@@ -91,6 +103,8 @@ def mk_val(t, v, declared=None):
         return STRING("s%d" % v)
     if b == 2:
         return REAL(v)                  # whole numbers: REAL(1.0) == INTEGER(1) == True in python
+    if b in (6, 7):
+        return BASES[b]["m%d" % (v % 16)]
     if b == 3:
         return bool(v % 2)              # BOOLEAN = bool; payloads 0/1
     # LOGICAL: payload 0 is the runtime's `Unknown`, every other payload its own LOGICAL object
@@ -107,6 +121,8 @@ def show_val(x):
     if isinstance(x, BaseTypeAggregate):
         tv = OBJECTS.get(id(x))
         return "val %s %d" % tv if tv else "val ? %r" % (x,)
+    if isinstance(x, E1) or isinstance(x, E2):
+        return "val %d %s" % (6 if isinstance(x, E1) else 7, x.name[1:])
     if isinstance(x, bool):
         return "val 3 %d" % int(x)
     if isinstance(x, LOGICAL):
@@ -150,7 +166,7 @@ def handle(agg, w):
         if len(w) != 8:
             return agg, "bad-op"
         kind, lo, hi, base, u, o, byname = w[1], int(w[2]), (None if w[3] == "?" else int(w[3])), w[4], w[5] == "1", w[6] == "1", w[7] == "1"
-        byname = byname and base.isdigit()
+        byname = byname and base.isdigit() and int(base) < 6
         bt = BASE_NAMES[int(base)] if byname else mk_type(base)
         kw = {"scope": SCOPE} if byname else {}
         try:
